@@ -156,6 +156,7 @@ def main(pid, tier='quick', seed=0, replay=None, nworkers=None,
   errors = []
   cross_held = collections.Counter()
   cross_viol = collections.Counter()
+  cross_skip = collections.Counter()
   cross_examples = []
   harness_notes = []
   all_notes = []
@@ -180,6 +181,10 @@ def main(pid, tier='quick', seed=0, replay=None, nworkers=None,
           cross_examples.append({'spec': spec, 'violation': v})
         j['violations'].remove(v)
     held.update(j['held'])
+    for m, c in list(j['inconclusive'].items()):
+      if not own(pid, m.split(':')[0]):
+        cross_skip[m] += c
+        del j['inconclusive'][m]
     inconc.update(j['inconclusive'])
     counters.update(j['counters'])
     for n_ in j['notes']:
@@ -258,6 +263,7 @@ def main(pid, tier='quick', seed=0, replay=None, nworkers=None,
       'cross_property_monitors': {
           'held': dict(sorted(cross_held.items())),
           'violations': dict(sorted(cross_viol.items())),
+          'inconclusive': dict(sorted(cross_skip.items())),
           'examples': cross_examples},
       'required_minimum': required,
       'missing_minimum': missing,
